@@ -220,4 +220,7 @@ example : holds signingConsts 100 [.attempt 2 147 177 [] (some 140)] = true := b
 example : holds signingConsts 100 [.attempt 2 146 177 [] (some 140)] = false := by decide
 example : holds signingConsts 100 [.attempt 2 147 177 [] (some 147)] = false := by decide
 
+example : noOverlap signingConsts [.attempt 1 106 136 [] none, .wait 2 142] = true := by decide
+example : noOverlap signingConsts [.attempt 1 106 136 [] none, .wait 2 137] = false := by decide
+
 end KeepVerif.C11
